@@ -17,8 +17,9 @@ import (
 // c18AttemptTimeouts: attempts that fail with net/http's own per-attempt timeouts (Transport.ResponseHeaderTimeout, or
 // http.Client.Timeout when the caller's client runs once per attempt through failsafehttp.NewRequest). Neither is the
 // caller's context being cancelled or expiring, so they are ordinary retryable errors of the documented retry rule. The
-// server holds the headers of scripted attempts back for far longer than the limit. A loaded machine can add spurious
-// timeouts (more attempts), never remove one, so the oracle is a lower bound on the attempts the server sees.
+// server holds the headers of scripted attempts back until the client has given up on the attempt, so such an attempt can
+// only end in the client's limit. A loaded machine can add spurious timeouts on the other attempts (more attempts),
+// never remove one, so the oracle is a lower bound on the attempts the server sees.
 func c18AttemptTimeouts(rep *vk.Report, idx int, srv *c18Server) {
 	r := vk.Rng(rep.Seed, "C18t", idx)
 	scripts := [][]srvStep{
@@ -78,6 +79,10 @@ func c18AttemptTimeouts(rep *vk.Report, idx int, srv *c18Server) {
 		}
 	}
 	cs := map[string]any{"limit": limit, "entry": entry, "server_script": steps}
+	if call.stallExpired.Load() {
+		rep.Count("http_attempt_timeout_calls_not_judged", 1)
+		return
+	}
 	if seen < want {
 		rep.Violate(idx, "C18/attempt-timeout-not-retried", fmt.Sprintf("%s, %s: the server held back the headers of scripted attempts (script %+v) so they ended in net/http's per-attempt timeout, a retryable error; the documented retry rule gives %d attempts, the server saw %d (returned status %d, err %v)", entry, limit, steps, want, seen, status, err), cs)
 		return
